@@ -162,3 +162,55 @@ impl AdditionalLifecycleEventsSet {
 //@ item src/sources/mod.rs / impl EventDispatcher<Data> for RefCell<DispatcherInner<S, F>> / fn before_handle_events props=C14 sigonly
 //@ enditem
 //@ close
+
+// The three registration methods once more, as S1 slices with the RefCell borrow as a parameter (rule R10): what the whole
+// items above cannot say -- the dispatcher's state is behind its own RefCell there -- is how the lifecycle set changes
+// DEPENDING ON the source's opt-in flag.
+impl<S: EventSource, F> DispatcherInner<S, F> {
+    pub closed spec fn opted_in(&self) -> bool { self.needs_additional_lifecycle_events }
+    pub closed spec fn src(&self) -> S { self.source }
+//@ slice src/sources/mod.rs / impl EventDispatcher<Data> for RefCell<DispatcherInner<S, F>> / fn register :: body props=C14,C15 name=DispatcherInner::register
+//@ rw R10 * <<self.borrow_mut()>> => <<this_cell>>
+//@ sig
+    /// S1 slice: whole body of the dispatcher's `register`; R10: `self.borrow_mut()` becomes `this_cell`.
+    fn dispatcher_register_body(this_cell: &mut DispatcherInner<S, F>, poll: &mut Poll, additional_lifecycle_register: &mut AdditionalLifecycleEventsSet, token_factory: &mut TokenFactory) -> (r: crate::Result<()>)
+//@ spec
+        requires old(this_cell).src().register_req(),
+        ensures
+            // C14: a source that opted in (NEEDS_EXTRA_LIFECYCLE_EVENTS) IS in the lifecycle set after a successful
+            // registration, under its own registration token; one that did not leaves the set alone
+            (r is Ok && old(this_cell).opted_in()) ==> final(additional_lifecycle_register)@.contains(old(token_factory).reg()),
+            !old(this_cell).opted_in() ==> final(additional_lifecycle_register)@ == old(additional_lifecycle_register)@,
+            r is Err ==> final(additional_lifecycle_register)@ == old(additional_lifecycle_register)@,
+            final(this_cell).opted_in() == old(this_cell).opted_in(),
+//@ endslice
+//@ slice src/sources/mod.rs / impl EventDispatcher<Data> for RefCell<DispatcherInner<S, F>> / fn reregister :: body props=C14,C15 name=DispatcherInner::reregister
+//@ rw R10 * <<self.try_borrow_mut()>> => <<Ok::<&mut DispatcherInner<S, F>, ()>(this_cell)>>
+//@ sig
+    /// S1 slice: whole body of the dispatcher's `reregister`; R10: `self.try_borrow_mut()` is taken to succeed with `this_cell`
+    /// (the failing case is the `Ok(false)` branch, proved on the whole item).
+    fn dispatcher_reregister_body(this_cell: &mut DispatcherInner<S, F>, poll: &mut Poll, additional_lifecycle_register: &mut AdditionalLifecycleEventsSet, token_factory: &mut TokenFactory) -> (r: crate::Result<bool>)
+//@ spec
+        requires old(this_cell).src().reregister_req(),
+        ensures
+            (r matches Ok(true) && old(this_cell).opted_in()) ==> final(additional_lifecycle_register)@.contains(old(token_factory).reg()),
+            !old(this_cell).opted_in() ==> final(additional_lifecycle_register)@ == old(additional_lifecycle_register)@,
+            r is Err ==> final(additional_lifecycle_register)@ == old(additional_lifecycle_register)@,
+            r is Ok ==> r matches Ok(true),
+//@ endslice
+//@ slice src/sources/mod.rs / impl EventDispatcher<Data> for RefCell<DispatcherInner<S, F>> / fn unregister :: body props=C14,C15,C06,C07 name=DispatcherInner::unregister
+//@ rw R10 * <<self.try_borrow_mut()>> => <<Ok::<&mut DispatcherInner<S, F>, ()>(this_cell)>>
+//@ sig
+    /// S1 slice: whole body of the dispatcher's `unregister`; R10 as above.
+    fn dispatcher_unregister_body(this_cell: &mut DispatcherInner<S, F>, poll: &mut Poll, additional_lifecycle_register: &mut AdditionalLifecycleEventsSet, registration_token: RegistrationToken) -> (r: crate::Result<bool>)
+//@ spec
+        requires old(this_cell).src().unregister_req(),
+        ensures
+            // C14/C06/C07: a successfully unregistered (removed, disabled) source that had opted in is OUT of the lifecycle set:
+            // it gets no further before_sleep / before_handle_events calls
+            (r matches Ok(true) && old(this_cell).opted_in()) ==> !final(additional_lifecycle_register)@.contains(registration_token),
+            !old(this_cell).opted_in() ==> final(additional_lifecycle_register)@ == old(additional_lifecycle_register)@,
+            r is Err ==> final(additional_lifecycle_register)@ == old(additional_lifecycle_register)@,
+            r is Ok ==> r matches Ok(true),
+//@ endslice
+}
